@@ -2,6 +2,8 @@ package httpcache
 
 import (
 	"net/http"
+
+	"github.com/bartventer/httpcache/internal"
 )
 
 // vxOriginCC: the directives of an origin response, lazily present.
@@ -77,8 +79,18 @@ func VxB_MissStep() {
 	vxND = vxBoundsB()
 	w := vxNewWorld(0)
 	w.clk.start()
+	// store state: empty, or only another variant of the URI is stored
+	otherVariant := vxChoice("store.other-variant", 2) == 1
+	if otherVariant {
+		idB := vxVariantID("b")
+		_ = w.rt.cache.Set(idB, &vxResponse{ID: idB, Data: &http.Response{StatusCode: 200, Header: http.Header{
+			"Date": []string{"Thu, 01 Jan 1970 00:00:00 GMT"}, "Cache-Control": []string{"max-age=999999999"}, "Vary": []string{"X-V"}, vxTagHeader: []string{"stored-b"}},
+			Body: &vxBodyT{tag: 0}}})
+		_ = w.rt.cache.SetRefs(vxURLKey, internal.ResponseRefs{&internal.ResponseRef{ResponseID: idB, Vary: "X-V", VaryResolved: map[string]string{"X-V": "b"}}})
+		w.conn.log = nil
+	}
 	q, qs := vxReqCCBuild("req")
-	hdr := http.Header{"Cache-Control": []string{qs}}
+	hdr := http.Header{"Cache-Control": []string{qs}, "X-V": []string{"a"}}
 	hasRange := vxBool("req.range")
 	hdr[vxHdrKey(hasRange, "Range")] = []string{"bytes=0-1"}
 	req := vxGET(hdr)
@@ -117,6 +129,7 @@ func VxB_MissStep() {
 		vxCover("miss/not-stored")
 	}
 	if resp != nil {
+		vxAssert(vxTagOf(resp) != "stored-b", "C04/other-variant-served")
 		st := vxStatusOf(resp)
 		vxAssert(len(resp.Header[CacheStatusHeader]) == 1, "C11/exactly-one-status-value")
 		vxAssert(st == "MISS" || st == "BYPASS", "C11/status-of-origin-reply")
